@@ -278,6 +278,9 @@ def gen_C02(rng, tier):
     last8_variants = {
         "end": E.u32(0) + E.u32(8), "type1": E.u32(1) + E.u32(8), "size9": E.u32(0) + E.u32(9),
         "size0": E.u32(0) + E.u32(0), "both": E.u32(7) + E.u32(16), "ff": b"\xff" * 8,
+        # type / size words that are 0 / 8 only after a truncation to 8 or 16 bits
+        "type64k": E.u32(0x10000) + E.u32(8), "type256": E.u32(0x100) + E.u32(8), "typehi": E.u32(0x80000000) + E.u32(8),
+        "size64k8": E.u32(0) + E.u32(0x10008), "size2g8": E.u32(0) + E.u32(0x80000008),
     }
 
     def region(t, last8, reserved, extra=0):
@@ -347,6 +350,10 @@ def gen_C02(rng, tier):
         count(dist["realistic"], kind)
     # total sizes around 2^30, 2^31 and 2^32 backed by that much (sparse, zero) memory: only the header and the last 8 bytes
     # are written; the model side is the closed form of C02_load_sparse
+    # loading a region of very many tags (load itself must not depend on their number)
+    for n in (1000, 4095, 70000):
+        cases.append("bigwalk %d %s" % (n, hx(E.tag(0x1337, b""))))
+    dist["many_tags"] = 3
     for t in [0x3FFFFFF8, 0x40000000, 0x7FFFFFF0, 0x7FFFFFF8, 0x7FFFFFFC, 0x80000000, 0x80000004, 0x80000008, 0x80000010, 0x80000018, 0xC0000000, 0xFFFFFFE8, 0xFFFFFFF0, 0xFFFFFFF8, 0xFFFFFFFC, 0xFFFFFFFF]:
         for name in ("end", "type1", "size9", "ff"):
             cases.append("mbihuge %s %s" % (hx(E.u32(t) + E.u32(rng.choice([0, 0xFFFFFFFF]))), hx(last8_variants[name])))
@@ -1280,7 +1287,8 @@ def gen_C17(rng, tier):
         cases.append("pstr " + hx(s + b"\0" + bytes(rng.choice(ALPHABET) for _ in range(rng.randrange(0, 4)))))
         count(dist, "bare_slices")
     # declared sizes cutting the string before/at/after its terminator; padding 0x00 vs 0x41; next tag printable
-    texts = [b"hello", b"h\xc3\xa9llo", b"\xe2\x82\xac", b"abcdefg", b"abcdefgh", b"", b"a\0b", b"\xf0\x9d\x84\x9e!"]
+    texts = [b"hello", b"h\xc3\xa9llo", b"\xe2\x82\xac", b"abcdefg", b"abcdefgh", b"", b"a\0b", b"\xf0\x9d\x84\x9e!",
+             b"ab\r\n", b"\n", b"x \t", b" lead", b"q\r", b"tab\tin"]      # nothing is trimmed or normalised
     for text in texts:
         for k in (1, 2, 3):
             fixed = E.u32(5) + E.u32(9) if k == 3 else b""
@@ -1339,6 +1347,11 @@ def gen_C18(rng, tier):
             count(dist, "long_maps")
     for d in (0xFFFFFFFF, 0x80000000, 0x10000):
         cases.append(mbi_case(E.mbi([E.t_efi_mmap(d, 1, bytes(80))])))
+    # admissible strides that do not fit 8 or 16 bits, with 2 and 3 entries (a stride cached in a narrower integer)
+    for d, cnt in ((256, 3), (264, 2), (0x10000, 2), (0x10028, 2), (0x10028, 3)):
+        body = b"".join(E.efi_desc(7, 0x1000 * (i + 1), 0x2000 * (i + 1), i + 1, 0xF, d, fill=0x5A) for i in range(cnt))
+        cases.append(mbi_case(E.mbi([E.t_efi_mmap(d, 1, body), E.t_cmdline("behind")])))
+        count(dist, "wide_strides")
     # the accepting side: every admissible stride x 0..20 entries with random descriptor contents, any version, a tag behind
     for d in list(range(40, 137, 8)) + [256]:
         for cnt in (list(range(0, 21)) if tier == "thorough" else [0, 1, 2, 3, 5, 9, 20]):
@@ -1500,6 +1513,11 @@ def rand_htag(rng, malformed=0.15):
     flags = rng.randrange(0, 2)
     nat = {0: 8, 1: 8 + 4 * rng.randrange(0, 7), 2: 24, 3: 12, 4: 12, 5: 20, 6: 8, 7: 8, 8: 12, 9: 12, 10: 24}[typ]
     payload = bytearray(marker(nat - 8, start=typ))
+    if typ in (2, 3, 5, 8, 9, 10) and rng.random() < 0.35:
+        # boundary values of the 32-bit fields (an accessor that special-cases 0 or all-ones)
+        for o in range(0, len(payload) - 3, 4):
+            if rng.random() < 0.5:
+                payload[o:o + 4] = E.u32(rng.choice([0, 0, 1, 0xFFFFFFFF, 0x80000000, 0x7FFFFFFF]))
     if typ == 4:
         payload[0:4] = E.u32(rng.randrange(0, 2))
     if typ == 10:
@@ -1593,6 +1611,13 @@ def gen_C09(rng, tier):
             t = (E.u16(typ) + E.u16(s % 2) + E.u32(s) + bytes(body))[:n]
             cases.append("hdr " + hx(E.header([t, E.htag(6, 0, b"")])))
             count(dist, "tag_sizes")
+    # declared lengths that are no multiple of 8 (and all small lengths): never loaded, nothing behind the length is touched
+    for length in list(range(0, 41)) + [44, 47, 49, 52, 60, 100]:
+        n = max(16, (length + 7) // 8 * 8 + 8)
+        tags = E.htag(6, 0, b"") + E.hend_tag() + marker(64, start=length)
+        b = (E.u32(E.HDR_MAGIC) + E.u32(0) + E.u32(length) + E.u32(E.checksum(E.HDR_MAGIC, 0, length)) + tags)[:n]
+        cases.append("hdr " + hx(b))
+        count(dist, "lengths_incl_unpadded")
     # iterator histories over header regions (30% of the tags with wrong sizes): new / next / clone / nth on a pool of
     # iterators; a call that panics is caught and the iterator is used again
     hd = {}
@@ -1716,6 +1741,20 @@ def _c07_extra(gen):
 
 
 PROPS["C07"]["gen"] = _c07_extra(PROPS["C07"]["gen"])
+
+
+def _c06_extra(gen):
+    def g(rng, tier):
+        cases, meta = gen(rng, tier)
+        # a structure of very many tags loads like any other (model: the closed form of C03_big_run)
+        for n in (1000, 4095, 70000):
+            cases.append("bigwalk %d %s" % (n, hx(E.tag(0x1337, b"abc"))))
+        meta["dist"]["many_tags"] = 3
+        return cases, meta
+    return g
+
+
+PROPS["C06"]["gen"] = _c06_extra(PROPS["C06"]["gen"])
 
 
 # ==========================================================================
